@@ -17,9 +17,20 @@ struct C05 : Prop {
 		J plan = J::obj();
 		auto tree = pc::gen_tree(r, (int) r.range(1, 4));
 		J bus = J::obj(); bus.set("nodes", pc::tree_json(tree)); bus.set("resp_delay_us", (int) r.range(100, 4000));
+		// bus faults on the answers (lost, duplicated with the same / the next number, numbering of a node jumps): the uplink side of
+		// the sequence bookkeeping must never leak into the numbers of the messages the library sends
+		bool normal = r.chance(300);
+		if (!normal && r.chance(400)) {
+			J af = J::arr();
+			for (int i = 0, n = (int) r.range(1, 6); i < n; i++) {
+				bus::Fault f; uint64_t x = r.below(3);
+				if (x == 0) f.kind = "lose"; else if (x == 1) { f.kind = "dup"; f.a = (int64_t) r.below(2); } else { f.kind = "seqjump"; f.a = (int64_t) r.range(1, 255); }
+				J e = J::arr(); e.push((int) r.range(1, 30)); e.push(bus::fault_json(f)); af.push(e);
+			}
+			bus.set("answer_faults", af);
+		}
 		plan.set("bus", bus);
 		// normal mode (configuration without equipment): connection probing with numbering off, SYS_RESET restarts the numbering
-		bool normal = r.chance(300);
 		if (normal) cfg::install(plan, cfg::bare_world(tree), r);
 		plan.set("normal", normal);
 		int flush_ms = r.chance(600) ? 0 : (int) r.range(1, 30);
